@@ -33,6 +33,11 @@ type c13Case struct {
 	// Inflate > 0: the first peer of the top height (the carrier of the tip's commit) claims to have Inflate more heights than
 	// it has (a false status), answers the request for its real height according to the strategy and is silent about the rest
 	Inflate int64 `json:"inflate,omitempty"`
+	// Push > 0: before any peer that has height Push is known (only the top peer has reported its status, so the pool already has a
+	// requester for Push with nobody to ask), a connected peer that never reported a status sends an unsolicited answer for that
+	// height: PushLie from the menu (the fork block, or the canonical block)
+	Push    int64      `json:"push,omitempty"`
+	PushLie c13kit.Lie `json:"push_lie,omitempty"`
 }
 
 type c13Peer = c13hand.Peer
@@ -195,8 +200,46 @@ func c13Run(chain *c13kit.Chain, c c13Case) (res c13Result) {
 	if err := n.bcR.Start(); err != nil {
 		panic(err)
 	}
-	for h := int64(1); h <= c13kit.Tip+1; h++ {
-		n.addPeer(h)
+	var pusher *c13Peer
+	pushed := &c13kit.Response{}
+	if c.Push > 0 {
+		n.addPeer(c13kit.Tip + 1)
+		pusher = c13hand.NewPeer(0, 900, func(*c13Peer, int64) bool { return true }, nil)
+		p2p.AddPeerToSwitchPeerSet(n.sw, pusher)
+		n.bcR.AddPeer(pusher)
+		waitUntil := time.Now().Add(10 * time.Second)
+		for {
+			n.bcR.pool.mtx.Lock()
+			rq := n.bcR.pool.requesters[c.Push]
+			n.bcR.pool.mtx.Unlock()
+			if rq != nil && rq.getPeerID() == "" {
+				break
+			}
+			if time.Now().After(waitUntil) {
+				res.Inconcl = "the pool never had a requester without a peer for the pushed height"
+				res.Outcome = "inconclusive"
+				_ = pusher.Stop()
+				return
+			}
+			time.Sleep(200 * time.Microsecond)
+		}
+		pushed = chain.Respond(c.PushLie, c.Push)
+		if pushed.Msg != nil {
+			trace("unsolicited %s for height %d from a peer without status", c.PushLie, c.Push)
+			n.deliver(pusher, pushed.Msg)
+		}
+		for h := int64(1); h <= c13kit.Tip; h++ {
+			n.addPeer(h)
+		}
+		defer func() {
+			if pusher.IsRunning() {
+				_ = pusher.Stop()
+			}
+		}()
+	} else {
+		for h := int64(1); h <= c13kit.Tip+1; h++ {
+			n.addPeer(h)
+		}
 	}
 	deadline := time.Now().Add(c13CaseTimeout)
 	tick := time.NewTicker(time.Millisecond)
@@ -293,6 +336,13 @@ LOOP:
 			time.Sleep(time.Millisecond)
 		}
 	}
+	if pusher != nil && reached && !pushed.Usable {
+		grace := time.Now().Add(5 * time.Second)
+		for pusher.IsRunning() && time.Now().Before(grace) && n.bcR.pool.IsRunning() {
+			time.Sleep(time.Millisecond)
+		}
+	}
+	pusherKept := pusher != nil && pusher.IsRunning()
 	handedOver := n.hand.Result().Called
 	if n.bcR.IsRunning() {
 		_ = n.bcR.Stop()
@@ -357,6 +407,12 @@ LOOP:
 			return
 		}
 	}
+	if pusherKept && !pushed.Usable && pushed.Msg != nil {
+		res.Key = "blockchain/v0:unsolicited-answer-taken:sender-not-stopped-after:" + c.PushLie.String()
+		res.What = fmt.Sprintf("a peer that was never asked sent %q for height %d while that height had no peer assigned; the node synced to the tip and the sender is still connected", c.PushLie, c.Push)
+		res.Outcome = "violation"
+		return
+	}
 	stopped, kept := 0, 0
 	for _, p := range n.peers {
 		if !p.Asked {
@@ -387,7 +443,7 @@ func TestVerifC13V0(t *testing.T) {
 	defer r.Finish()
 	defer c13hand.Cleanup()
 	r.Rule = "every adversary strategy with <= L lies over heights 1..5 of a 6-block canonical chain with a validator addition: (height, successive peer) -> lie from the menu; " +
-		"the <= 1-lie strategies also with a false status (the top peer claims two heights it does not have and is silent about them); strategies are distinct by construction; non-trivial = at least one lie; each runs the real v0 reactor to the tip and through the hand-over"
+		"unsolicited answers (fork block, canonical block, forged commit) from a peer without status for each height that has no peer yet; the <= 1-lie strategies also with a false status (the top peer claims two heights it does not have and is silent about them); strategies are distinct by construction; non-trivial = at least one lie; each runs the real v0 reactor to the tip and through the hand-over"
 	r.Assume("ed25519 is a black box; the adversary holds one validator key (< 1/3) and cannot forge the others")
 	r.Assume("schedules inside the pool's goroutines are whatever the Go scheduler produces; the enumerated dimension is the adversary's strategy (plus two delivery orders)")
 	r.Assume("peerTimeout (a package variable) is lowered to 200ms in cases that contain unanswered requests")
@@ -515,6 +571,28 @@ func TestVerifC13V0(t *testing.T) {
 					return false
 				}
 				run(c13Case{Strategy: s, Natural: nat, Inflate: 2})
+			}
+			return true
+		})
+	}
+	// unsolicited answers for a height nobody can be asked for yet (<= 1 further lie)
+	if !stop {
+		c13kit.Enumerate(func(int) []c13kit.Lie { return c13kit.CoreMenu() }, vr.Pick(0, 1), func(s c13kit.Strategy) bool {
+			for push := int64(1); push <= c13kit.Tip; push++ {
+				for _, pl := range []c13kit.Lie{c13kit.ForkBlock, c13kit.Honest, c13kit.ForgeLast} {
+					if !c13kit.Applicable(pl, push) {
+						continue
+					}
+					k++
+					if !r.Mine(k) {
+						continue
+					}
+					if r.Deadline("v0 strategies with an unsolicited answer") {
+						stop = true
+						return false
+					}
+					run(c13Case{Strategy: s, Push: push, PushLie: pl})
+				}
 			}
 			return true
 		})
